@@ -1008,6 +1008,42 @@ def shrink_input(ctx, exe, dbname, db, dblines, text, kind):
         return text
 
 
+
+def run_histories(ctx, exe, n, hdb, hlines, nh, stats, cov, db_text=None):
+    """redefinition histories on one database: entries defined again by run inputs (all blocks together, or each block alone in
+    its own call, or a NAMED_EXPRESSIONS block alone); later calls of the same instance must follow the LAST definition as a whole"""
+    tot_or = tot_tie = 0
+    texts, starts = [], []
+    for _ in range(nh):
+        tx, hm = gens.gen_redefinition_history(ctx.rng, hdb)
+        starts.append(len(texts))
+        texts += tx
+        cov["kinds"][hm["kind"]] = cov["kinds"].get(hm["kind"], 0) + 1
+        for f in set(hm["features"]):
+            cov["features"][f] = cov["features"].get(f, 0) + 1
+    per = max(1, math.ceil(len(starts) / vlib.NCPU))
+    jobs = []
+    for k in range(0, len(starts), per):
+        a0 = starts[k]
+        a1 = starts[k + per] if k + per < len(starts) else len(texts)
+        jobs.append((a0, texts[a0:a1], [x - a0 for x in starts[k:k + per]]))
+    with concurrent.futures.ThreadPoolExecutor(max_workers=vlib.NCPU) as ex:
+        futs = {ex.submit(check_runs, ctx, exe, n, hdb, hlines, tx, st, frozenset(rs)): (a0, tx, rs, st)
+                for a0, tx, rs in jobs for st in [new_stats()]}
+        for fu in concurrent.futures.as_completed(futs):
+            a0, tx, rs, st = futs[fu]
+            findings, _ = fu.result()
+            for key, v in st.items():
+                if key in ("seen", "altpe_names"):
+                    stats[key] |= v
+                else:
+                    stats[key] = max(stats[key], v) if key == "res_max" else stats[key] + v
+            a, b = handle_findings(ctx, exe, n, hdb, hlines, [(a0, tx, findings)], db_text=db_text, starts=rs)
+            tot_or += a
+            tot_tie += b
+    return tot_or, tot_tie
+
+
 # ------------------------------------------------------------------------------------------ entry points
 def databases(ctx):
     names = sorted(p.name for p in (vlib.REPO / "database").glob("*.dat"))
@@ -1116,36 +1152,9 @@ def _run(ctx, ok, exe):
         hdb = dbparse.parse(dbfile(n))
         if not hdb.species or n == "minimum.dat":
             continue
-        hlines = dbparse.to_lines(hdb, n)
-        texts, starts = [], []
-        for _ in range(nh):
-            tx, hm = gens.gen_redefinition_history(ctx.rng, hdb)
-            starts.append(len(texts))
-            texts += tx
-            cov["kinds"]["redefinition-history"] = cov["kinds"].get("redefinition-history", 0) + 1
-            for f in set(hm["features"]):
-                cov["features"][f] = cov["features"].get(f, 0) + 1
-        # split into chunks of whole histories across processes
-        per = max(1, math.ceil(len(starts) / vlib.NCPU))
-        jobs = []
-        for k in range(0, len(starts), per):
-            a0 = starts[k]
-            a1 = starts[k + per] if k + per < len(starts) else len(texts)
-            jobs.append((a0, texts[a0:a1], [x - a0 for x in starts[k:k + per]]))
-        with concurrent.futures.ThreadPoolExecutor(max_workers=vlib.NCPU) as ex:
-            futs = {ex.submit(check_runs, ctx, exe, n, hdb, hlines, tx, st, frozenset(rs)): (a0, tx, rs, st)
-                    for a0, tx, rs in jobs for st in [new_stats()]}
-            for fu in concurrent.futures.as_completed(futs):
-                a0, tx, rs, st = futs[fu]
-                findings, _ = fu.result()
-                for key, v in st.items():
-                    if key in ("seen", "altpe_names"):
-                        stats[key] |= v
-                    else:
-                        stats[key] = max(stats[key], v) if key == "res_max" else stats[key] + v
-                a, b = handle_findings(ctx, exe, n, hdb, hlines, [(a0, tx, findings)], starts=rs)
-                tot_or += a
-                tot_tie += b
+        a, b = run_histories(ctx, exe, n, hdb, dbparse.to_lines(hdb, n), nh, stats, cov)
+        tot_or += a
+        tot_tie += b
     ctx.log("redefinition histories:", {"states_under_redefinition": stats["states_under_redefinition"],
                                         "runs_with_definitions": stats["runs_with_definitions"],
                                         "runs_after_failed_definition": stats["runs_after_failed_definition"]})
@@ -1176,6 +1185,9 @@ def _run(ctx, ok, exe):
                                       focus=[x for x in ("Na", "K", "Li", "Ca", "Mg", "Ba", "Sr", "Mn", "Zn", "Cd", "Cu", "Al",
                                                          "Cl", "Br", "F", "N", "S") if x])
         a, b = handle_findings(ctx, exe, str(path), db, dblines, results, db_text=text)
+        tot_or += a
+        tot_tie += b
+        a, b = run_histories(ctx, exe, str(path), db, dblines, 60 if thorough else 25, stats, cov, db_text=text)
         tot_or += a
         tot_tie += b
         per_db[path.name] = {"runs": stats["runs"] - before["runs"], "dumps": stats["dumps"] - before["dumps"],
